@@ -172,6 +172,11 @@ def stencil_case(case):
         impl = grid.make_operator_no_bc(op, backend=backend, **opts)
     except NotImplementedError as e:
         return {"nt": False, "ref": f"NotImplementedError: {op} {backend} {str(e)[:60]}", "out": "refused"}
+    except RuntimeError as e:
+        if backend == "scipy" and "not uniform" in str(e):
+            return {"nt": False, "ref": f"scipy {op}: anisotropic grid refused (RuntimeError: discretization is not uniform)",
+                    "out": "refused"}
+        raise
 
     padded = tuple(s + 2 for s in geo["shape"])
     in_shape = (dim,) * rank_in + padded
@@ -416,7 +421,7 @@ def order_case(case):
         if system.startswith("cart"):
             d = int(system[4])
             bounds = [[-0.4, 1.0], [0.1, 1.3], [-0.5, 0.3]][:d]
-            shape = [N, N + N // 4, max(4, N // 2)][:d] if d < 3 else [N, N // 2 + 2, N // 2]
+            shape = [N, N + N // 4][:d] if d < 3 else [N, N // 2, N // 2]
             spec = ["cart", bounds, shape, [False] * d]
         elif system == "polar":
             spec = ["polar", [0.5, 2.0] if hole else 2.0, N]
@@ -451,7 +456,9 @@ def order_case(case):
     def order(e):
         return [math.log2(e[i] / e[i + 1]) if e[i + 1] > 0 and e[i] > 0 else float("inf") for i in range(len(e) - 1)]
 
-    need = 0.9 if one_sided else 1.8
+    # the asymptotic order is read off the finest refinement pair (coarser pairs are pre-asymptotic);
+    # thresholds sit between the integer orders: a first-order scheme shows ~1.0, a second-order one -> 2
+    need = 0.85 if one_sided else 1.7
     o_all = order(errs_all)
     detail = {"errors_all_cells": errs_all, "orders_all_cells": o_all, "errors_r>=0.75": errs_far,
               "errors_first_radial_cell": errs_first}
@@ -459,13 +466,13 @@ def order_case(case):
     if errs_far:
         o_far = order(errs_far)
         detail["orders_r>=0.75"] = o_far
-        if errs_far[-1] > noise and min(o_far) < need:
+        if errs_far[-1] > noise and o_far[-1] < need:
             viol.append({"sig": f"{sig0}|order below {need} at fixed distance from r=0",
                          "msg": f"{sig0}: errors {errs_far} orders {o_far}", "detail": detail})
     exempt_first = system == "cyl" and op == "vector_laplace" and not hole
     if not one_sided or system.startswith("cart"):
-        need_all = 0.9 if (exempt_first or one_sided) else 1.8
-        if errs_all[-1] > noise and min(o_all) < need_all:
+        need_all = 0.85 if (exempt_first or one_sided) else 1.7
+        if errs_all[-1] > noise and o_all[-1] < need_all:
             viol.append({"sig": f"{sig0}|order below {need_all} uniformly over all cells",
                          "msg": f"{sig0}: errors {errs_all} orders {o_all} (first radial cell: {errs_first})",
                          "detail": detail})
@@ -504,8 +511,10 @@ def operator_variants(geo):
             out += [(op, {"conservative": c, **m}) for c in (True, False) for m in methods] + [(op, {})]
         elif system == "sph" and op == "tensor_divergence":
             out += [(op, {"conservative": True}), (op, {"conservative": False}), (op, {})]
-        elif op in ("gradient", "divergence", "vector_gradient", "tensor_divergence") and system in ("sph", "polar") or (
-            system.startswith("cart") and op in ("gradient", "divergence", "vector_gradient", "tensor_divergence")
+        elif (
+            (system == "sph" and op in ("gradient", "vector_gradient"))
+            or (system == "polar" and op == "gradient")
+            or (system.startswith("cart") and op in ("gradient", "divergence", "vector_gradient", "tensor_divergence"))
         ):
             out += [(op, m) for m in methods] + [(op, {})]
         else:
@@ -543,6 +552,9 @@ def main(run):
             iso = len({round(d, 12) for d in geo["dx"]}) == 1
             for op in ("laplace", "gradient", "divergence", "vector_gradient", "vector_laplace", "tensor_divergence"):
                 cases.append({"grid": spec, "op": op, "opts": {}, "backend": "scipy", "seed": run.seed})
+                if op in ("gradient", "divergence", "vector_gradient", "tensor_divergence"):
+                    for m in ("forward", "backward"):
+                        cases.append({"grid": spec, "op": op, "opts": {"method": m}, "backend": "scipy", "seed": run.seed})
     run.explore("checks.c01:stencil_case", cases, mode="I", part="(a) stencil = mechanical discretisation", limit=900)
     # (b) orders
     ocases = []
@@ -577,7 +589,7 @@ def main(run):
         "with d -> central/forward/backward difference, d^2 -> three-point formula, coefficients at the cell centre; "
         "conservative spherical operators: finite-volume form with exact shell volumes",
         "on spherical grids only the input combinations the operators admit (symmetry check) are compared",
-        "refinement study: N = 16/32/64 (8/16/32 in 3-d); order >= 1.8 (0.9 one-sided); errors below 1e-9 count as converged",
+        "refinement study: N = 16/32/64 (8/16/32 in 3-d); observed order of the finest pair >= 1.7 (0.85 one-sided / exempted cells); errors below 1e-9 count as converged",
         "spectral operators, jax/torch backends are absent and not explored; the 9-point Laplacian is not the default and not explored",
     ]
     return (
